@@ -258,11 +258,8 @@ func (r *runner) block(t sumtree.Tree, kv storetypes.KVStore, c *tcase, uni, q [
 		}
 	}
 	ends := append([][]byte{nil}, q...)
-	for i, s := range ends {
-		for j, e := range ends {
-			if i == 0 && j == 0 {
-				continue // SubsetAccumulation(nil, nil) is TotalAccumulatedValue, asked below
-			}
+	for _, s := range ends {
+		for _, e := range ends {
 			var v osmomath.Int
 			st := r.guarded(func() { v = t.SubsetAccumulation(s, e) })
 			r.puti(st)
